@@ -121,7 +121,8 @@ static bool write_and_verify_chunk(zckCtx *src, zckCtx *tgt,
     VALIDATE_READ_BOOL(src);
     VALIDATE_READ_BOOL(tgt);
 
-    static char buf[BUF_SIZE] = {0};
+    /* Not static: contexts may be used from different threads */
+    char buf[BUF_SIZE] = {0};
 
     size_t to_read = src_idx->comp_length;
     if(!seek_data(src, src->data_offset + src_idx->start, SEEK_SET))
